@@ -122,6 +122,10 @@ type ZKClient struct {
 	Events    chan ZKEvent
 	cutAt     time.Duration
 	Reqs      int
+	// Stalled: the server expired the session while the process was stalled (stopped, swapped out,
+	// behind a black-holed link) - the client has not noticed anything yet and finds the connection
+	// dead at its next request
+	Stalled bool
 }
 
 type ZKRequest struct {
@@ -259,6 +263,15 @@ func (z *ZKServer) Cut(c *ZKClient) {
 // the client is cut off or dead.
 func (z *ZKServer) Expire(c *ZKClient) {
 	z.expireSession(c.Session)
+}
+
+// StallExpire expires the client's session on the server without the client noticing (see Stalled).
+func (z *ZKServer) StallExpire(c *ZKClient) {
+	if !c.Connected || c.Closed || c.Dead {
+		return
+	}
+	z.expireSession(c.Session)
+	c.Stalled = true
 }
 
 func (z *ZKServer) expireSession(id int64) {
@@ -448,6 +461,17 @@ func (w *World) executeZK(c *Call, pt *Point, dev Deviation) {
 		pt.Fails = true
 		w.note(pt, c, false, ErrClosing)
 		c.reply <- Reply{ZK: ZKReply{Err: ErrConnectionClosed}}
+		return
+	}
+	if cl.Stalled {
+		// the request finds the connection dead: it is not applied; the client reconnects, learns that
+		// its session expired and gets a new one (events through the real channel)
+		cl.Stalled = false
+		pt.Fails = true
+		z.Cut(cl)
+		z.Heal(cl)
+		w.note(pt, c, false, ErrConnectionClosed)
+		c.reply <- Reply{ZK: ZKReply{Err: ErrConnectionClosed}, Delay: FailLatency}
 		return
 	}
 	if !cl.Connected {
